@@ -721,6 +721,12 @@ func BuildFromAliasedTable(query *Query, as string, expr sqlparser.SimpleTableEx
 				}
 			default:
 				{
+					// FROM `<-`: the enclosing document as a one-row table is a
+					// snapshot of the scope, like the selected marker, never the
+					// live scope itself
+					if scope, ok := data.(Map); ok && endsInMarker(tableName) {
+						data = scopeSnapshot(scope)
+					}
 					array, err := AsArray(data)
 					if err != nil {
 						return err
